@@ -548,6 +548,49 @@ func checkRoundTripValidated(r *Reporter, p *Prog, pkg string, info *types.Info)
 						return true
 					}
 					signFactor := be.Op == token.MUL && (isUnitSign(info, fd.Body, be.X) || isUnitSign(info, fd.Body, be.Y) || unitVals(be.X) || unitVals(be.Y))
+					// a product is exact when one factor is known to be 1 (or 0) on every path to it: the site
+					// is reached only through the true edge of `a == 1`, or of a disjunction all of whose
+					// operands pin one of the two factors to 1 or 0 (`x == 1 || y == 1`)
+					if be.Op == token.MUL {
+						kx, ky := exprKey(be.X), exprKey(be.Y)
+						var pins func(c ast.Expr) bool
+						pins = func(c ast.Expr) bool {
+							c = ast.Unparen(c)
+							if b2, ok := c.(*ast.BinaryExpr); ok {
+								if b2.Op == token.LOR {
+									return pins(b2.X) && pins(b2.Y)
+								}
+								if b2.Op == token.EQL {
+									for _, pr := range [][2]ast.Expr{{b2.X, b2.Y}, {b2.Y, b2.X}} {
+										if k := exprKey(pr[0]); k == kx || k == ky {
+											if v, isC := constInt(info, pr[1]); isC && (v == 1 || v == 0) {
+												return true
+											}
+										}
+									}
+								}
+							}
+							return false
+						}
+						pinned, _ := f.RawCondEdges(pins)
+						if len(pinned) > 0 {
+							// the factors are parameters that are never assigned before the product
+							stable := true
+							for _, o := range []ast.Expr{be.X, be.Y} {
+								if ob := objOfIdent(info, o); ob != nil {
+									if defs, _ := f.ReachingDefs(pt, ob); len(defs) > 0 {
+										stable = false
+									}
+								} else {
+									stable = false
+								}
+							}
+							if _, only := f.OnlyThroughEdges(pt, pinned); only && stable {
+								r.Pass("wrap/round-trip-validated", key, p.posStr(be.Pos()), "one factor is known to be 1 (or 0) on every path to the product: it is exact")
+								return true
+							}
+						}
+					}
 					as, isAssign := nd.(*ast.AssignStmt)
 					if !isAssign || len(as.Lhs) != 1 || len(as.Rhs) != 1 || ast.Unparen(as.Rhs[0]) != ast.Expr(be) {
 						r.Fail("wrap/round-trip-validated", key, p.posStr(be.Pos()), "a raw product/shift of non-constant integers is used without being bound to a variable that is validated by the inverse operation: it wraps silently for large operands")
